@@ -258,6 +258,8 @@ func (pConn *PFCPConn) Shutdown() {
 			logger.PfcpLog.Errorln("failed to release UE IP of session", sess.localSEID, err)
 		}
 
+		releaseAllocatedFTEIDs(pConn.upf.fteidGenerator, &sess)
+
 		pConn.RemoveSession(sess)
 	}
 
